@@ -903,8 +903,21 @@ package raft
 //@ func (r *raft) Handle [C18 C03]
 //@ trusted the raft core's message dispatcher (its handlers are under contract individually)
 //@ requires m.Type == pb.RequestVoteResp ==> (m.From in r.remotes || m.From in r.nonVotings || m.From in r.witnesses)
-//@ func IsLocalMessageType [C18]
-//@ trusted classification of message types
+// C18/C07: a local Election message (the start of a campaign) is injected only while the replica is
+// still a member of the shard: a replica that has applied its own removal never campaigns again,
+// whichever path tries to make it (election timeout, TimeoutNow of a leadership transfer)
+//@ requires m.Type == pb.Election ==> (r.replicaID in r.remotes || r.replicaID in r.nonVotings || r.replicaID in r.witnesses)
+//@ func (r *raft) sendRateLimitMessage [C18]
+//@ trusted reports the in-memory log size to the leader (rate limiting)
+//@ func (r *raft) timeForRateLimitCheck [C18]
+//@ trusted clock arithmetic
+//@ func (r *raft) nonLeaderTick [C18 C07]
+//@ noframe
+//@ nobounds
+//@ func (r *raft) handleFollowerTimeoutNow [C18 C07]
+//@ noframe
+//@ nobounds
+//@ requires r.wf()
 //@ func (p *Peer) Handle [C18 C03]
 //@ noframe
 //@ nobounds
